@@ -2209,6 +2209,20 @@ async def relay_scenario(rig: Rig, case, labels) -> bool:
             labels.add('pause')
         elif what == 'yield':
             await rig.probe()
+        elif what == 'flood':
+            # more than socket buffers and the transport's high-water mark
+            # hold, towards an end that is not reading: back-pressure has
+            # to build up through the relay and be released again
+            src, dst = (a, b) if op[1] == 'a' else (b, a)
+            dst.pause()
+            src.write(pat(1 if src is a else 2, src.sent, op[2]))
+            src.sent += op[2]
+
+            for _ in range(3):
+                await rig.probe()
+
+            dst.resume()
+            labels.add('flood-slow' if case['slow'] else 'flood')
 
         if what in ('a', 'b') and op[1] > 32768:
             labels.add('write>pkt')
@@ -2359,7 +2373,9 @@ def relay_strategy(tier: str):
         st.tuples(st.just('a'), size).map(list),
         st.tuples(st.just('b'), size).map(list),
         st.just(['sync']), st.just(['yield']),
-        st.tuples(st.just('pause'), st.sampled_from(['a', 'b'])).map(list))
+        st.tuples(st.just('pause'), st.sampled_from(['a', 'b'])).map(list),
+        st.tuples(st.just('flood'), st.sampled_from(['a', 'b']),
+                  st.sampled_from([400000, 700000])).map(list))
 
     return st.fixed_dictionaries({
         'kind': st.sampled_from(KINDS[:7] + KINDS[:5] + KINDS),
@@ -2731,16 +2747,22 @@ def run_interop(case) -> CaseResult:
     return CaseResult(sorted(labels), nontrivial)
 
 
-def interop_strategy(tier: str):
-    return st.fixed_dictionaries({
-        'mode': st.sampled_from(INTEROP_MODES),
-        'size': st.sampled_from([1, 100, 32769, 70000, 200000]),
-        'back': st.sampled_from([1, 100, 40000]),
-        'banner': st.sampled_from([0, 0, 20]),
-        'end': st.sampled_from(['a_half', 'b_half']),
-        'tail': st.sampled_from([0, 50, 5000]),
-    })
+def interop_cases(tier: str):
+    """A fixed grid (every mode with both EOF orders), no random choice"""
 
+    if tier == 'quick':
+        shapes = [(70000, 40000, 20, 5000), (1, 1, 0, 0)]
+    else:
+        shapes = [(size, back, banner, tail)
+                  for size in (1, 100, 32769, 200000)
+                  for back, banner in ((1, 0), (40000, 20))
+                  for tail in (0, 50, 5000)]
+
+    for mode in INTEROP_MODES:
+        for end in ('a_half', 'b_half'):
+            for size, back, banner, tail in shapes:
+                yield {'mode': mode, 'size': size, 'back': back,
+                       'banner': banner, 'end': end, 'tail': tail}
 
 FAMILIES = [
     Family('socks', run_socks, strategy=socks_strategy,
@@ -2762,13 +2784,13 @@ FAMILIES = [
                              'dynamic-port', 'cancel', 'listener-at-end',
                              'end-close', 'end-abort', 'end-cut']}),
     Family('relay', run_relay, strategy=relay_strategy,
-           budget={'quick': 160, 'thorough': 3000},
+           budget={'quick': 400, 'thorough': 4000},
            required={'all': KINDS + ['early-data', 'banner',
                                      'half-close-reverse-data', 'end-a_half',
                                      'end-b_half', 'end-a_abort',
                                      'end-b_abort', 'end-conn_close',
                                      'bystander', 'pause', 'write>pkt',
-                                     'socks-pipelined']},
+                                     'socks-pipelined', 'flood-slow']},
            case_timeout=120),
     Family('release', run_release, strategy=release_strategy,
            budget={'quick': 120, 'thorough': 2000},
@@ -2776,8 +2798,9 @@ FAMILIES = [
                      ['active', 'explicit-close', 'survives-listener-close',
                       'end-close', 'end-abort', 'end-sabort', 'end-cut']},
            case_timeout=120),
-    Family('interop', run_interop, strategy=interop_strategy,
-           budget={'quick': 24, 'thorough': 200},
-           required={'all': ['ssh-L', 'ssh-R', 'ssh-D5']},
+    Family('interop', run_interop, enumerate=interop_cases,
+           required={'all': ['ssh-' + m for m in INTEROP_MODES] +
+                     ['end-a_half', 'end-b_half',
+                      'half-close-reverse-data']},
            shards={'quick': 8, 'thorough': 16}, case_timeout=120),
 ]
